@@ -151,15 +151,38 @@ def build_robot(spec):
         dyn = (lambda suffix: suffix) if shared else (lambda suffix: None)
         body = {}
 
-        def ctor(self, _site=f"{cname}.ctor", _c=c):
+        def ctor(self, _site=f"{cname}.ctor", _c=c, _cname=cname):
             for s in _c.get("sentinels", ()):
                 setattr(self, s["attr"], s["value"])
+            for r_ in _c.get("resets", ()):
+                if "ctor_value" in r_:
+                    # the constructor leaves something else in a will_reset_to attribute; the declared default counts
+                    setattr(self, r_["attr"], r_["ctor_value"])
+            if _c.get("hook_kind") == "partial":
+                # hooks that are plain callables stored on the instance
+                import functools
+                for hook_ in ("on_enable", "on_disable"):
+                    if _c.get("has_" + hook_):
+                        setattr(self, hook_, functools.partial(rt.cb, f"{_cname}.{hook_}"))
             rt.cb(_site)
         body["__init__"] = ctor
+        if c.get("truth") == "len0":
+            body["__len__"] = lambda self: 0            # a queue-like component that is empty (falsy)
+        elif c.get("truth") == "boolFalse":
+            body["__bool__"] = lambda self: False
+        if c.get("eq_all"):
+            # value semantics: all instances of the class compare (and hash) equal
+            body["__eq__"] = lambda self, o: type(o) is type(self)
+            body["__hash__"] = lambda self: 7
         body["execute"] = _mk_method("execute", f"{cname}.execute", dyn=dyn("execute"))
         for hook in ("on_enable", "on_disable"):
             if c.get("has_" + hook):
-                body[hook] = _mk_method(hook, f"{cname}.{hook}", dyn=dyn(hook))
+                if c.get("hook_kind") == "static" and not shared:
+                    body[hook] = staticmethod(lambda _site=f"{cname}.{hook}": rt.cb(_site))
+                elif c.get("hook_kind") == "partial" and not shared:
+                    pass        # stored on the instance by the constructor
+                else:
+                    body[hook] = _mk_method(hook, f"{cname}.{hook}", dyn=dyn(hook))
         if c.get("has_setup"):
             def setup(self, _site=f"{cname}.setup", _c=c, _spec=spec, _shared=shared):
                 r = rt.CUR.robot
@@ -269,6 +292,10 @@ def write_auto_package(spec, root):
             f.write(f"    MODE_NAME = {m['name']!r}\n")
             if m.get("default"):
                 f.write("    DEFAULT = True\n")
+            if m.get("falsy") == "len":
+                f.write("    def __len__(self):\n        return 0\n")
+            if m.get("falsy") == "bool":
+                f.write("    def __bool__(self):\n        return False\n")
             f.write(f"    def on_enable(self):\n        rt.cb('M.{m['name']}.on_enable')\n")
             f.write(f"    def on_iteration(self, tm):\n        rt.cb('M.{m['name']}.on_iteration', tm)\n")
             f.write(f"    def on_disable(self):\n        rt.cb('M.{m['name']}.on_disable')\n")
@@ -323,6 +350,9 @@ class Run:
             en, au, te = MODE_WORDS[mode]
             flags = spec.get("disabled_flags", {}).get("0", (False, False)) if mode == "disabled" else (au, te)
             simenv.set_ds(en, flags[0], flags[1], fms=spec["fms"])
+            import wpilib
+            # the dashboard's 'Auto Selector' string (always written: "" names no mode)
+            wpilib.SmartDashboard.putString("Auto Selector", spec.get("auto_selector") or "")
             robot = robot_cls()
             rec.robot = robot
             self.robot = robot
